@@ -232,7 +232,7 @@ pub fn seeds(f: F) -> Vec<Vec<u8>> {
 	v
 }
 
-const EDIT_BYTES: &[u8] = b" \n\t\"'[]{},:-#=.0a\\\x00\xff\xc3\x80\xfe\xef";
+const EDIT_BYTES: &[u8] = b" \n\r\t\"'[]{},:-#=.0a\\\x00\xff\xc3\x80\xfe\xef";
 
 /// Single-edit neighbourhood: delete / replace / insert at every position, every truncation.
 pub fn single_edits(seed: &[u8], max_len: usize) -> Vec<Vec<u8>> {
@@ -270,4 +270,167 @@ pub fn single_edits(seed: &[u8], max_len: usize) -> Vec<Vec<u8>> {
 pub fn dedup(v: Vec<Vec<u8>>) -> Vec<Vec<u8>> {
 	let mut seen = HashSet::new();
 	v.into_iter().filter(|x| seen.insert(x.clone())).collect()
+}
+
+/// The text seeds of a format with every LF written as CR LF and as a bare CR (YAML accepts all three
+/// line breaks; for the other formats the variants are further malformed / whitespace inputs).
+pub fn linebreak_variants(f: F) -> Vec<Vec<u8>> {
+	let mut v = vec![];
+	if f == F::Msgpack {
+		return v;
+	}
+	for s in seeds(f) {
+		if !s.contains(&b'\n') || s.contains(&0) {
+			continue;
+		}
+		let mut crlf = vec![];
+		let mut cr = vec![];
+		for &b in &s {
+			if b == b'\n' {
+				crlf.extend_from_slice(b"\r\n");
+				cr.push(b'\r');
+			} else {
+				crlf.push(b);
+				cr.push(b);
+			}
+		}
+		v.push(crlf);
+		v.push(cr);
+	}
+	v
+}
+
+/// Sizes around the buffer sizes and length-header widths of xt and the crates under it
+/// (BufReader/BufWriter 8 KiB, libyaml 16 KiB raw reads, 64 KiB pipes, page size): 2^k - 1, 2^k, 2^k + 1
+/// and some further multiples of 8 KiB.
+pub fn size_ladder(thorough: bool) -> Vec<usize> {
+	let mut v = vec![];
+	let ks: Vec<u32> = if thorough { (10..=18).collect() } else { vec![12, 13, 14, 16] };
+	for k in ks {
+		let p = 1usize << k;
+		v.extend([p - 1, p, p + 1]);
+	}
+	for m in [3usize, 5, 6, 7] {
+		let p = m * 8192;
+		if thorough {
+			v.extend([p - 1, p, p + 1]);
+		} else if m == 3 {
+			v.push(p);
+		}
+	}
+	v.sort_unstable();
+	v.dedup();
+	v
+}
+
+/// A block of `# ...` comment lines of exactly `len` bytes.
+pub fn comment_block(len: usize) -> String {
+	let mut s = String::with_capacity(len);
+	while s.len() < len {
+		let left = len - s.len();
+		if left == 1 {
+			s.push('\n');
+		} else {
+			let line = left.min(80);
+			s.push('#');
+			for _ in 0..line - 2 {
+				s.push('c');
+			}
+			s.push('\n');
+		}
+	}
+	s
+}
+
+pub struct Layout {
+	pub bytes: Vec<u8>,
+	pub docs: Vec<crate::model::V>,
+	pub label: String,
+}
+
+/// Three-document YAML streams in which either a leading comment block or the first document has an
+/// exact size from the ladder, the first document being explicit, implicit or implicit and indented,
+/// with three ways of ending a document.
+pub fn yaml_layouts(thorough: bool) -> Vec<Layout> {
+	use crate::model::V;
+	let mut out = vec![];
+	let seps = ["---\n", "...\n---\n", "...\n# gap\n\n---\n"];
+	for &size in &size_ladder(thorough) {
+		for big_comment in [true, false] {
+			for (kind, indent, explicit) in [("explicit", 0usize, true), ("implicit", 0, false), ("indented", 2, false)] {
+				for (si, sep) in seps.iter().enumerate() {
+					let ind = " ".repeat(indent);
+					let head = if explicit { "---\n" } else { "" };
+					let overhead = head.len() + indent + "p: \n".len() + indent + "q: 1\n".len();
+					let n = if big_comment { 5 } else { size.saturating_sub(overhead) };
+					let z = "z".repeat(n);
+					let mut text = comment_block(if big_comment { size } else { 10 });
+					text.push_str(&format!("{head}{ind}p: {z}\n{ind}q: 1\n"));
+					text.push_str(sep);
+					text.push_str("second: 2\n");
+					text.push_str(sep);
+					text.push_str("- third\n");
+					out.push(Layout {
+						bytes: text.into_bytes(),
+						docs: vec![V::map(vec![("p", V::Str(z)), ("q", V::Int(1))]), V::map(vec![("second", V::Int(2))]), V::Arr(vec![V::s("third")])],
+						label: format!("yaml-layout:{}:{size}:{kind}:sep{si}", if big_comment { "comment" } else { "first-doc" }),
+					});
+				}
+			}
+		}
+	}
+	out
+}
+
+/// JSON / MessagePack streams whose first document has an exact size from the ladder, followed by two
+/// small documents (JSON: with and without a line break between documents).
+pub fn sized_streams(f: F, thorough: bool) -> Vec<Layout> {
+	use crate::model::V;
+	let mut out = vec![];
+	for &size in &size_ladder(thorough) {
+		match f {
+			F::Json => {
+				for (si, sep) in ["", "\n"].iter().enumerate() {
+					let n = size - "{\"p\":\"\"}".len();
+					let z = "z".repeat(n);
+					let text = format!("{{\"p\":\"{z}\"}}{sep}{{\"second\":2}}{sep}[\"third\"]{sep}");
+					out.push(Layout { bytes: text.into_bytes(), docs: vec![V::map(vec![("p", V::Str(z))]), V::map(vec![("second", V::Int(2))]), V::Arr(vec![V::s("third")])], label: format!("json-sized:{size}:sep{si}") });
+				}
+			}
+			F::Msgpack => {
+				// 81 a1 'p' <str header> <n bytes>
+				let mut n = size - 3;
+				let hdr = |n: usize| if n < 32 { 1 } else if n < 256 { 2 } else if n < 65536 { 3 } else { 5 };
+				for _ in 0..3 {
+					n = size - 3 - hdr(n);
+				}
+				if 3 + hdr(n) + n != size {
+					continue;
+				}
+				let mut b = vec![0x81, 0xa1, b'p'];
+				match hdr(n) {
+					1 => b.push(0xa0 | n as u8),
+					2 => b.extend([0xd9, n as u8]),
+					3 => {
+						b.push(0xda);
+						b.extend((n as u16).to_be_bytes());
+					}
+					_ => {
+						b.push(0xdb);
+						b.extend((n as u32).to_be_bytes());
+					}
+				}
+				b.extend(std::iter::repeat(b'z').take(n));
+				assert!(b.len() == size);
+				b.extend([0x81, 0xa6]);
+				b.extend(b"second");
+				b.push(0x02);
+				b.extend([0x91, 0xa5]);
+				b.extend(b"third");
+				out.push(Layout { bytes: b, docs: vec![V::map(vec![("p", V::Str("z".repeat(n)))]), V::map(vec![("second", V::Int(2))]), V::Arr(vec![V::s("third")])], label: format!("msgpack-sized:{size}") });
+			}
+			_ => {}
+		}
+	}
+	out
 }
